@@ -11,7 +11,10 @@ for p in "$V"/mutants/*.patch; do
     props="${name%%__*}"
     caught=""
     for prop in ${props//_/ }; do
-        out="$("$V/tools/run_on_copy.sh" "$p" "$prop" quick 2>&1)"; rc=$?
+        hs=300; [[ "$name" == *spins* ]] && hs=20
+        tmp="$(mktemp)"
+        VERIF_HANG_SECS=$hs "$V/tools/run_on_copy.sh" "$p" "$prop" quick >"$tmp" 2>&1; rc=$?
+        out="$(tr -d '\000' <"$tmp")"; rm -f "$tmp"
         if [ $rc -eq 1 ] && grep -q "^VIOLATION property=$prop" <<<"$out"; then
             caught="$caught $prop($(grep -m1 'clause   :' <<<"$out" | sed 's/.*: //'))"
         elif [ $rc -eq 2 ]; then
